@@ -27,12 +27,15 @@ LEAN_MODULES = ["VgiVerif.Proofs.C43"]
 OBLIGATIONS = [
     "VgiVerif.C43.shape_ok",
     "VgiVerif.C43.split_render",
+    "VgiVerif.C43.balanced_elements",
     "VgiVerif.C43.C43_parse_render",
     "VgiVerif.C43.C43_roundtrip",
     "VgiVerif.C43.C43_select",
     "VgiVerif.C43.C43_select_only",
     "VgiVerif.C43.C43_injection",
     "VgiVerif.C43.C43_missing",
+    "VgiVerif.C43.C43_zero_elements",
+    "VgiVerif.C43.C43_outcomes",
     "VgiVerif.C43.C43_unq_natural",
 ]
 TRUSTED = [
@@ -178,7 +181,7 @@ RDN_VALUES = ["alice", "bob", "client-1", "svc.prod", "Acme\\, Inc.", "a\\+b", "
 HOSTS = ["a.example.com", "b.example.com", "*.svc.cluster.local", "localhost", "xn--caf-dma.example", "evil.example"]
 URIS = ["spiffe://cluster.local/ns/default/sa/client", "spiffe://cluster.local/ns/default/sa/server", "https://id.example/a,b;c",
         "spiffe://td/with space", "spiffe://td/q\"uote", "urn:x:\u00e9", "spiffe://td/back\\slash", "a=b&c=d"]
-PEM = "-----BEGIN CERTIFICATE-----\nMIIBszCCAVmgAwIBAgIU+/=\n-----END CERTIFICATE-----\n"
+PEM = "-----BEGIN CERTIFICATE-----\nMIIB+/=\n-----END CERTIFICATE-----\n"
 WS = ["", "", "", "", "", " ", "\t", "  ", " \t"]
 SPECIAL_ALPHABET = list(',,;;==""\\\\  \t\n%') + list("CNcn=HhaSsUuRrIiDdBbyYeEtTjx019") + ["\u00a0", "\u2028", "\u3000", "\u212a", "\u0130", "\u00e9", "\x1f", "\x85", "\r", "\x00", "\U0001f600"]
 
@@ -654,12 +657,12 @@ def zero_element_header(rng: Any) -> str:
 
 def run(ctx: Any) -> None:
     rng = ctx.rng
-    n_grammar = ctx.budget(6000, 500000)
-    n_mut = ctx.budget(3000, 150000)
-    n_arb = ctx.budget(3000, 100000)
-    n_inject = ctx.budget(3000, 200000)
-    n_small = ctx.budget(1500, 60000)
-    n_wire = ctx.budget(250, 6000)
+    n_grammar = ctx.budget(4000, 80000)
+    n_mut = ctx.budget(2000, 40000)
+    n_arb = ctx.budget(2500, 50000)
+    n_inject = ctx.budget(2000, 40000)
+    n_small = ctx.budget(1200, 20000)
+    n_wire = ctx.budget(200, 3000)
 
     # ---- O1/O3 + K on grammar headers --------------------------------------------------------------
     asts = [gen_ast(rng) for _ in range(n_grammar)]
@@ -719,9 +722,9 @@ def run(ctx: Any) -> None:
     o_rejection(ctx, "", False)
     for s in [",", ",,", " ", " , ", "\t,\n", "\u00a0", ", ,\u3000,"]:
         o_rejection(ctx, s, True)
-    for _ in range(ctx.budget(200, 5000)):
+    for _ in range(ctx.budget(200, 4000)):
         o_rejection(ctx, zero_element_header(rng), True)
-    for _ in range(ctx.budget(300, 10000)):  # arbitrary text never raises anything but the two AuthFailures
+    for _ in range(ctx.budget(300, 6000)):  # arbitrary text never raises anything but the two AuthFailures
         o_rejection(ctx, mutate(rng, rng.choice(rendered)) if rng.random() < 0.5 else gen_arbitrary(rng), False)
 
     # ---- on the wire ----------------------------------------------------------------------------------
